@@ -302,6 +302,9 @@ def _field_wrapper(tree):
     return preset_first
 
 
+_OBJECT_ANNOTATION = [None]
+
+
 def _subgroups_fn(tree):
     fn = find_def(tree, "subgroups")
     if [a.arg for a in fn.args.args] != ["subgroups"] or [a.arg for a in fn.args.kwonlyargs] != ["default", "default_factory"]:
@@ -375,6 +378,19 @@ def _subgroups_fn(tree):
             "if is_dataclass_type(dataclass_fn.func):\n    return dataclass_fn.func",
             "return _get_dataclass_type_from_callable(dataclass_fn=dataclass_fn.func, caller_frame=caller_frame)"]:
         raise Unrecognised("_get_dataclass_type_from_callable: the functools.partial arm")
+    # the tail: a string annotation is resolved inside `if isinstance(signature.return_annotation, str):`; after it either the
+    # annotation itself is returned when it is a class object, or the function falls off the end (None: the entry cannot be chosen)
+    strs = [i for i, x in enumerate(gb) if isinstance(x, ast.If) and unparse(x.test) == "isinstance(signature.return_annotation, str)"]
+    if len(strs) != 1 or not unparse(gb[strs[0]]).rstrip().endswith("assert is_dataclass_type(dataclass_fn_type)\n    return dataclass_fn_type"):
+        raise Unrecognised("_get_dataclass_type_from_callable: the string-annotation arm")
+    tail = gt[strs[0] + 1:]
+    if tail == []:
+        object_annotation = False
+    elif len(tail) == 2 and tail[0].startswith("assert is_dataclass_type(signature.return_annotation)") and tail[1] == "return signature.return_annotation":
+        object_annotation = True
+    else:
+        raise Unrecognised(f"_get_dataclass_type_from_callable: tail {tail}")
+    _OBJECT_ANNOTATION[0] = object_annotation
     # what is stored as the default
     st = has("if default is not MISSING:\n    if is_dataclass_instance(default):")
     want = (
@@ -665,6 +681,7 @@ def emit(repo: str) -> str:
         f"Definition main_registers_subgroup_options_gen : bool := {cb(main_has_sg)}.   (* DataclassWrapper.add_arguments does not skip subgroup fields *)\n"
         f"Definition setup_sees_argv_gen : bool := {cb(sees_argv)}.     (* parse_known_args -> _preprocessing -> _resolve_subgroups(args=args, namespace=namespace) *)\n"
         f"Definition instantiates_bottom_up_gen : bool := {cb(bottom_up)}.   (* sorted(wrappers, key=nesting_level, reverse=True); child value into the parent's arguments *)\n"
+        f"Definition callable_type_from_object_annotation_gen : bool := {cb(_OBJECT_ANNOTATION[0])}.   (* _get_dataclass_type_from_callable: `-> A` (class object) gives A *)\n"
         "Definition resolves_conflicts_each_round_gen : bool := true.\n"
         "Definition default_validated_gen : bool := true.    (* subgroups(): ValueError unless the default is a key / a value of the table *)\n"
         "Definition default_stored_as_key_gen : bool := true. (* metadata['subgroup_default'] is always the KEY (instance / factory looked up) *)\n"
